@@ -252,3 +252,25 @@ Proof.
   intros Hcl E Hr. pose proof (escapes_sound P Hcl f fuel c Hr) as Hc. rewrite E in Hc.
   destruct Hc as (k & [] & _).
 Qed.
+
+(* ---------- lists of entry points ---------- *)
+Definition all_within (P : prog) (fs : list fname) (fuel : nat) (handled : list cls) : bool :=
+  forallb (fun f => within P (escapes P f fuel) handled) fs.
+
+Theorem entries_within P fs fuel handled :
+  mro_closed P = true -> all_within P fs fuel handled = true ->
+  forall f c, In f fs -> raises P f c -> matches P c handled = true.
+Proof.
+  intros Hcl Hall f c Hin Hr. unfold all_within in Hall. rewrite forallb_forall in Hall.
+  eapply escapes_within; [exact Hcl | apply Hall; exact Hin | exact Hr].
+Qed.
+
+(* with an empty handled set: nothing escapes *)
+Theorem entries_silent P fs fuel :
+  mro_closed P = true -> all_within P fs fuel [] = true ->
+  forall f c, In f fs -> ~ raises P f c.
+Proof.
+  intros Hcl Hall f c Hin Hr.
+  pose proof (entries_within P fs fuel [] Hcl Hall f c Hin Hr) as Hm.
+  cbn [matches existsb] in Hm. discriminate Hm.
+Qed.
